@@ -21,8 +21,8 @@ var ErrInjected = errors.New("verif: injected fault")
 type Sink struct {
 	T       *tr.Writer
 	Truth   *Truth
-	FaultAt int    // 1-based index of the Write call that fails (0: never)
-	Partial bool   // the failing call accepts half of the bytes first
+	FaultAt int  // 1-based index of the Write call that fails (0: never)
+	Partial bool // the failing call accepts half of the bytes first
 	Jitter  *rand.Rand
 	mu      sync.Mutex
 	Buf     []byte
